@@ -327,6 +327,29 @@ VARIANTS += [
 ]
 
 
+# ---- round 7 (DESIGN §22)
+VARIANTS += [
+    V("eval-absolute-denominator", ["C01"], H, "        denom = np.inner(rationalvals[:, j], weights)\n        for i, weight in enumerate(weights):\n", "        denom = np.inner(rationalvals[:, j], weights)\n        if not abs(denom) > 1e-12:\n            raise ValueError\n        for i, weight in enumerate(weights):\n", "WEIGHT-SCALE", "eval_rational_nodes", "denominator compared with an absolute tolerance"),
+    V("twin-eval-zero-denominator", ["C01"], H, "        denom = np.inner(rationalvals[:, j], weights)\n        for i, weight in enumerate(weights):\n", "        denom = np.inner(rationalvals[:, j], weights)\n        if denom == 0:\n            raise ZeroDivisionError\n        for i, weight in enumerate(weights):\n", None, None, "denominator compared with exactly 0 (scale-free)", twin=True),
+    V("fit-poly-basis-low-degree", ["C12"], H, "        if weights is None:\n            funcvals = eval_spline_nodes(knotvector, nodes, degree)\n        else:\n            funcvals = eval_rational_nodes(knotvector, weights, nodes, degree)\n        return Linalg.lstsq(np.transpose(funcvals))", "        if weights is None or degree < 2:\n            funcvals = eval_spline_nodes(knotvector, nodes, degree)\n        else:\n            funcvals = eval_rational_nodes(knotvector, weights, nodes, degree)\n        return Linalg.lstsq(np.transpose(funcvals))", "POLY-ONLY", "LeastSquare.fit_function", "polynomial basis for rational curves of degree < 2"),
+    V("twin-fit-rational-first", ["C12"], H, "        if weights is None:\n            funcvals = eval_spline_nodes(knotvector, nodes, degree)\n        else:\n            funcvals = eval_rational_nodes(knotvector, weights, nodes, degree)\n        return Linalg.lstsq(np.transpose(funcvals))", "        if weights is not None:\n            funcvals = eval_rational_nodes(knotvector, weights, nodes, degree)\n        else:\n            funcvals = eval_spline_nodes(knotvector, nodes, degree)\n        return Linalg.lstsq(np.transpose(funcvals))", None, None, "branches the other way round", twin=True),
+    V("gram-spans-intersection", ["C11", "C13"], H, "        allknots = list(set(oldknots + newknots))\n        allknots.sort()\n", "        allknots = sorted(set(oldknots) & set(newknots))\n", "SPANS-UNION", "func2func", "quadrature over the common knots only"),
+    V("twin-gram-spans-union-operator", ["C11", "C13", "C05"], H, "        allknots = list(set(oldknots + newknots))\n        allknots.sort()\n", "        allknots = sorted(set(oldknots) | set(newknots))\n", None, None, "union written with |", twin=True),
+    V("limits-from-knots", ["C03"], H, "        return (self[self.degree], self[self.npts])\n", "        knots = self.knots\n        return (knots[0], knots[-1])\n", "LIMITS-RAW", "limits", "limits taken from the tolerance-merged knots"),
+    V("twin-limits-from-the-back", ["C03", "C01"], H, "        return (self[self.degree], self[self.npts])\n", "        return (self[self.degree], self[-self.degree - 1])\n", None, None, "upper end indexed from the back", twin=True),
+    V("newton-return-before-step", ["C20"], A, "            deltapair = np.linalg.solve(ggrad, grad)\n            pair -= deltapair\n", "            deltapair = np.linalg.solve(ggrad, grad)\n            if np.linalg.norm(deltapair) < 1e-9:\n                return tuple(pair)\n            pair -= deltapair\n", "STEP-APPLIED", "newton_bcurve_and_bcurve", "converged iterate returned before the last step is applied"),
+    V("twin-newton-flag-before-step", ["C20"], A, "            deltapair = np.linalg.solve(ggrad, grad)\n            pair -= deltapair\n", "            deltapair = np.linalg.solve(ggrad, grad)\n            small = np.linalg.norm(deltapair) < 1e-9\n            pair -= deltapair\n", None, None, "size of the step measured before it is applied (unused flag)", twin=True),
+    V("evaluator-negative-index-short-table", ["C02"], F, "        self.__first_index = i\n", "        if isinstance(i, int) and i < 0:\n            i += len(vector) - j - 1\n        self.__first_index = i\n", "ROW-INDEX", "FunctionEvaluator.__init__", "negative index resolved with len(U) - j - 1"),
+    V("twin-evaluator-negative-index-npts", ["C02"], F, "        self.__first_index = i\n", "        if isinstance(i, int) and i < 0:\n            i += vector.npts\n        self.__first_index = i\n", None, None, "negative index resolved with npts", twin=True),
+    V("transformation-repeats-limits", ["C08"], H, "        knotvectora = knotvectora + (degreeb - degreea) * knotsa\n", "        knotvectora = knotvectora + (degreeb - degreea) * knotvectora.limits\n", "ELEVATED-VECTOR", "matrix_transformation", "elevated vector repeats the two ends only"),
+    V("twin-transformation-inline-knots", ["C08"], H, "        knotvectora = knotvectora + (degreeb - degreea) * knotsa\n", "        knotvectora = knotvectora + (degreeb - degreea) * knotvectora.knots\n", None, None, "distinct knots read in place", twin=True),
+    V("twin-find-roots-matmul", ["C15"], H, "    manyvalues = np.dot(np.transpose(matrixeval), ctrlvalues)\n", "    manyvalues = np.transpose(matrixeval) @ ctrlvalues\n", None, None, "contraction written with @", twin=True),
+    V("twin-random-item", ["C18"], K, "        weights = [cls(int(weight)) for weight in weights]\n", "        weights = [cls(weight.item()) for weight in weights]\n", None, None, "numpy scalar converted with .item()", twin=True),
+    V("twin-derivate-rebind-scaled", ["C19", "C09"], H, "        matrix /= knotvector[-1] - knotvector[0]\n", "        matrix = matrix / (knotvector[-1] - knotvector[0])\n", None, None, "division rebinds the matrix instead of working in place", twin=True),
+    V("twin-apply-sum-with-start", ["C04", "C16"], C, "                    newpoint = 0 * numerators[0]\n                    for j, point in enumerate(numerators):\n                        newpoint = newpoint + (line[j] * invweight) * point\n", "                    newpoint = sum(((coef * invweight) * point for coef, point in zip(line, numerators)), start=0 * numerators[0])\n", None, None, "sum() started from a zero point", twin=True),
+]
+
+
 def _sources(src_dir: str, v: dict) -> Optional[dict]:
     edits = v.get("edits") or [(v["module"], v["old"], v["new"])]
     out: Dict[str, str] = {}
